@@ -5,8 +5,9 @@ from harness import k_api, k_select
 def obligations(tier):
     quick = tier == "quick"
     return [
+        k_api.obligation_qual(tier, {"C01"}, "O1.6 end to end on qualitative and ordinal features: fitted row partition is among the optimal viable groupings of the brute-force oracle"),
         k_api.obligation(tier, {"C01"}, "O1.5 end to end: complete BinaryCarver / ContinuousCarver fits on symbolic columns; fitted row partition is among the optimal viable groupings of an independent brute-force oracle (real measures)",
-                         ["BinaryCarver", "ContinuousCarver"], ns=[4] if quick else [4, 5], max_pats=8 if quick else 30),
+                         ["BinaryCarver", "ContinuousCarver"], ns=[4] if quick else [4, 5], max_pats=6 if quick else 24, dev=True),
         k_select.obligation(tier, {"C01"}, "O1.2a selection logic for ANY association measure (abstract measure values, symbolic crosstab cells and min_freq_mod)", "abstract"),
         k_select.obligation_cont(tier, {"C01"}, "O1.4 ContinuousCarver selection logic for ANY measure value (symbolic target values per modality, real _grouper/_printer)"),
         k_select.obligation(tier, {"C01"}, "O1.2b selection logic with the real chi2-based measures on solver-chosen crosstabs", "real"),
